@@ -22,7 +22,11 @@ import (
 // ---- merge part ------------------------------------------------------------------------------
 
 // a version code: 0 absent, 1 ts=1, 2 ts=2 (value A), 3 ts=2 (value B: tie), 4 ts=3
-var c06TS = []int64{0, 1, 2, 2, 3}
+// version codes of a key: 0 absent, 1..4 plain versions (codes 2 and 3 tie on the timestamp),
+// 5 the newest version of all, carrying an expiry that has already passed when it is merged
+var c06TS = []int64{0, 1, 2, 2, 3, 4}
+
+const c06ExpiredCode = 5
 
 func c06Val(code int) string { return fmt.Sprintf("v%d", code) }
 
@@ -37,7 +41,7 @@ type c06MergeCase struct {
 
 func c06Sources() []c06Frag {
 	var out []c06Frag
-	for a := 0; a <= 4; a++ {
+	for a := 0; a <= 5; a++ {
 		for _, b := range []int{0, 2} {
 			if a == 0 && b == 0 {
 				continue
@@ -79,6 +83,9 @@ func c06Entry(key string, code int) storage.Entry {
 	e.SetKey(key)
 	e.SetValue([]byte(c06Val(code)))
 	e.SetTimestamp(c06TS[code])
+	if code == c06ExpiredCode {
+		e.SetTTL(sched.Base/1e6 - 1000) // one second before the start of the virtual clock: expired
+	}
 	return e
 }
 
@@ -159,6 +166,16 @@ func c06RunMerge(cs c06MergeCase) (string, string) {
 				return "merge/value-corrupt", fmt.Sprintf("key %s holds %q", kb.k, cps[0].Value)
 			}
 			if kb.best != 0 {
+				kv, kerr := cl.Entry("EO", "d", kb.k)
+				if kerr == nil {
+					g := kv.Get(kb.k)
+					if kb.best == c06TS[c06ExpiredCode] && g.Err != "notfound" {
+						return "merge/superseded-version-readable", fmt.Sprintf("after delivery #%d of %s the newest version of key %s is the expired one, Get returns %q err=%q", i, src, kb.k, g.Val, g.Err)
+					}
+					if kb.best != c06TS[c06ExpiredCode] && g.Err != "" {
+						return "merge/newest-version-unreadable", fmt.Sprintf("after delivery #%d of %s Get(%s) fails with %q", i, src, kb.k, g.Err)
+					}
+				}
 				// value must belong to a version with that timestamp
 				ok := false
 				for code, ts := range c06TS {
